@@ -6,6 +6,7 @@ import (
 	"go/token"
 	"go/types"
 	"os"
+	"strings"
 
 	"golang.org/x/tools/go/ssa"
 
@@ -465,6 +466,271 @@ func staticUpperBound(v ssa.Value, depth int) (int64, bool) {
 		}
 	}
 	return best, have
+}
+
+// narrowedDependency: t is an interface type declared by the library itself
+// whose methods are all methods of a caller-supplied dependency interface
+// (afero.Fs, io/fs.FS, crypto.Signer) with identical signatures, at least one of
+// them naming a type of the dependency's own package (so that an unrelated
+// small interface - Name() string - is not taken for one): a narrow view of the
+// dependency, which an implementation of the dependency is assigned to. Returns
+// the dependency kind, "" otherwise.
+func narrowedDependency(t types.Type) string {
+	named, ok := t.(*types.Named)
+	if !ok || named.Obj() == nil || named.Obj().Pkg() == nil {
+		return ""
+	}
+	iface, ok := named.Underlying().(*types.Interface)
+	if !ok || iface.NumMethods() == 0 {
+		return ""
+	}
+	home := named.Obj().Pkg()
+	if home.Path() != M && !strings.HasPrefix(home.Path(), M+"/") {
+		return ""
+	}
+	mentions := func(sig *types.Signature, pkg *types.Package) bool {
+		found := false
+		var visit func(tt types.Type, depth int)
+		visit = func(tt types.Type, depth int) {
+			if depth > 4 || found {
+				return
+			}
+			switch x := tt.(type) {
+			case *types.Named:
+				if x.Obj() != nil && x.Obj().Pkg() == pkg {
+					found = true
+				}
+			case *types.Pointer:
+				visit(x.Elem(), depth+1)
+			case *types.Slice:
+				visit(x.Elem(), depth+1)
+			case *types.Array:
+				visit(x.Elem(), depth+1)
+			}
+		}
+		for _, tup := range []*types.Tuple{sig.Params(), sig.Results()} {
+			for k := 0; k < tup.Len(); k++ {
+				visit(tup.At(k).Type(), 0)
+			}
+		}
+		return found
+	}
+	for _, dep := range []struct{ pkg, name, kind string }{
+		{"github.com/spf13/afero", "Fs", "filesystem"},
+		{"io/fs", "FS", "filesystem"},
+		{"crypto", "Signer", "signer"},
+	} {
+		for _, imp := range home.Imports() {
+			if imp.Path() != dep.pkg {
+				continue
+			}
+			obj := imp.Scope().Lookup(dep.name)
+			if obj == nil {
+				continue
+			}
+			full, isI := obj.Type().Underlying().(*types.Interface)
+			if !isI {
+				continue
+			}
+			all, own := true, false
+			for k := 0; k < iface.NumMethods(); k++ {
+				m := iface.Method(k)
+				var match *types.Func
+				for j := 0; j < full.NumMethods(); j++ {
+					if full.Method(j).Name() == m.Name() {
+						match = full.Method(j)
+					}
+				}
+				if match == nil || !types.Identical(m.Type(), match.Type()) {
+					all = false
+					break
+				}
+				if mentions(m.Type().(*types.Signature), imp) {
+					own = true
+				}
+			}
+			if all && own {
+				return dep.kind
+			}
+		}
+	}
+	return ""
+}
+
+// contentNeverRead: the byte slice buf is scratch space: it is made locally
+// (make) or taken from a package-level sync.Pool, and it - with every slice of
+// it, and for a pooled buffer every value any library function takes from the
+// same pool - is used for nothing but being handed to Read methods, len/cap,
+// and being given back to the pool. No instruction loads an element, copies
+// from it, stores it or passes it to other code.
+func (c *Ctx) contentNeverRead(buf ssa.Value) bool {
+	var usesOK func(v ssa.Value, depth int) bool
+	usesOK = func(v ssa.Value, depth int) bool {
+		if depth > 8 || v.Referrers() == nil {
+			return false
+		}
+		for _, r := range *v.Referrers() {
+			switch x := r.(type) {
+			case *ssa.DebugRef:
+			case *ssa.Slice:
+				if x.X != v || !usesOK(x, depth+1) {
+					return false
+				}
+			case *ssa.UnOp:
+				// the slice behind a pointer to it (pooled as *[]byte)
+				if x.Op != token.MUL || !isByteSlice(x.Type()) || !usesOK(x, depth+1) {
+					return false
+				}
+			case *ssa.TypeAssert:
+				if !usesOK(x, depth+1) {
+					return false
+				}
+			case *ssa.Extract:
+				if !usesOK(x, depth+1) {
+					return false
+				}
+			case *ssa.MakeInterface:
+				if !usesOK(x, depth+1) {
+					return false
+				}
+			case ssa.CallInstruction:
+				cc := x.Common()
+				switch {
+				case cc.IsInvoke() && cc.Method.Name() == "Read" && len(cc.Args) == 1 && cc.Args[0] == v:
+				case ir.CallID(x) == "builtin.len" || ir.CallID(x) == "builtin.cap":
+				case ir.CallID(x) == "sync.Pool.Put":
+				default:
+					return false
+				}
+			default:
+				return false
+			}
+		}
+		return true
+	}
+	// where the buffer comes from
+	v := buf
+	for depth := 0; depth < 8; depth++ {
+		switch x := v.(type) {
+		case *ssa.Slice:
+			v = x.X
+			continue
+		case *ssa.UnOp:
+			if x.Op == token.MUL {
+				v = x.X
+				continue
+			}
+		case *ssa.TypeAssert:
+			v = x.X
+			continue
+		case *ssa.Extract:
+			v = x.Tuple
+			continue
+		}
+		break
+	}
+	switch x := v.(type) {
+	case *ssa.MakeSlice:
+		return usesOK(x, 0)
+	case *ssa.Call:
+		if ir.CallID(x) != "sync.Pool.Get" || len(x.Call.Args) != 1 {
+			return false
+		}
+		pool, isG := x.Call.Args[0].(*ssa.Global)
+		if !isG {
+			return false
+		}
+		// every taker of the pool's buffers
+		ok, n := true, 0
+		for _, fn := range c.P.LibFunctions() {
+			for _, g := range withAnon(fn) {
+				instrsOf(g, func(i ssa.Instruction) {
+					call, isC := i.(*ssa.Call)
+					if !isC || ir.CallID(call) != "sync.Pool.Get" || len(call.Call.Args) != 1 || call.Call.Args[0] != ssa.Value(pool) {
+						return
+					}
+					n++
+					if !usesOK(call, 0) {
+						ok = false
+					}
+				})
+			}
+		}
+		return ok && n > 0
+	}
+	return false
+}
+
+// fullTotalEdge: on this edge the running total of the counts of the read call
+// has reached the length of the buffer: the call reads into buf[total:], total
+// is a loop variable whose next value is total + count, and the edge says
+// total >= len(buf) (or ==).
+func fullTotalEdge(call *ssa.Call, cmp *ssa.BinOp, truth bool) bool {
+	args := ir.CallArgs(call)
+	var total *ssa.Phi
+	var whole ssa.Value
+	for _, a := range args {
+		sl, ok := a.(*ssa.Slice)
+		if !ok || sl.High != nil || sl.Max != nil || sl.Low == nil || !isByteSlice(sl.Type()) {
+			continue
+		}
+		if ph, isPhi := ir.StripConv(sl.Low).(*ssa.Phi); isPhi {
+			total, whole = ph, sl.X
+		}
+	}
+	if total == nil {
+		return false
+	}
+	// total's next value is total + count of this call
+	steps := false
+	for _, e := range total.Edges {
+		bo, ok := ir.StripConv(e).(*ssa.BinOp)
+		if !ok || bo.Op != token.ADD {
+			continue
+		}
+		for _, p := range [][2]ssa.Value{{bo.X, bo.Y}, {bo.Y, bo.X}} {
+			ex, isEx := ir.StripConv(p[1]).(*ssa.Extract)
+			if ir.StripConv(p[0]) == ssa.Value(total) && isEx && ex.Tuple == ssa.Value(call) && ex.Index == 0 {
+				steps = true
+			}
+		}
+	}
+	if !steps {
+		return false
+	}
+	isLen := func(v ssa.Value) bool {
+		lc, ok := ir.StripConv(v).(*ssa.Call)
+		return ok && ir.CallID(lc) == "builtin.len" && len(lc.Call.Args) == 1 && lc.Call.Args[0] == whole
+	}
+	op := cmp.Op
+	if !truth {
+		op = negate(op)
+	}
+	x, y := cmp.X, cmp.Y
+	if isLen(x) {
+		x, y, op = y, x, flip(op)
+	}
+	return ir.StripConv(x) == ssa.Value(total) && isLen(y) && (op == token.EQL || op == token.GEQ)
+}
+
+// fullTotalDominates: return r of fn lies behind a fullTotalEdge of the call.
+func fullTotalDominates(fn *ssa.Function, call *ssa.Call, r *ssa.Return) bool {
+	for _, ce := range ir.CondEdges(fn) {
+		cmp, ok := ce.Cond.(*ssa.BinOp)
+		if !ok || !fullTotalEdge(call, cmp, ce.Truth) {
+			continue
+		}
+		if ce.Edge.To == r.Block().Index && len(r.Block().Preds) == 1 || ir.EdgeDominates(fn, ce.Edge, r.Block()) {
+			return true
+		}
+	}
+	return false
+}
+
+// isUnsignedInt: t is an unsigned integer type.
+func isUnsignedInt(t types.Type) bool {
+	b, ok := t.Underlying().(*types.Basic)
+	return ok && b.Info()&types.IsUnsigned != 0
 }
 
 // dbgI prints a development trace when VCHECK_DEBUG=devI.
